@@ -45,7 +45,7 @@ def run_suite(d):
 
 
 def run_check(d, prop, tier="quick", seed="0"):
-    env = dict(os.environ, VERIF_REPO=d, VERIF_SEED=seed, VERIF_SELFTEST="1")
+    env = dict(os.environ, VERIF_REPO=d, VERIF_SEED=seed, VERIF_SELFTEST="1", VERIF_NPROC=os.environ.get("SELFTEST_NPROC", "16"))
     t = time.time()
     p = subprocess.run([os.path.join(VERIF, "check"), prop, "--tier", tier], cwd=VERIF, env=env,
                        capture_output=True, text=True)
@@ -58,6 +58,7 @@ def main():
     ap.add_argument("--props", default="")
     ap.add_argument("--names", default="")
     ap.add_argument("--also", default="", help="other properties to run for the cross-firing audit")
+    ap.add_argument("--jobs", type=int, default=1)
     ap.add_argument("--out", default=os.path.join(HERE, "last_results.json"))
     a = ap.parse_args()
     props = [p for p in a.props.split(",") if p]
@@ -68,11 +69,9 @@ def main():
     if os.path.isdir(evdir):
         shutil.copytree(evdir, os.path.join(backup, "evidence"))
     try:
-        for m in MUTANTS:
-            if props and m["prop"] not in props:
-                continue
-            if a.names and a.names not in m["name"]:
-                continue
+        todo = [m for m in MUTANTS if (not props or m["prop"] in props) and (not a.names or a.names in m["name"])]
+
+        def one(m):
             d = make_copy()
             try:
                 apply(d, m)
@@ -89,12 +88,15 @@ def main():
                 for other in [p for p in a.also.split(",") if p and p != m["prop"]]:
                     rc2, out2, _ = run_check(d, other)
                     res["cross"][other] = rc2
-                results.append(res)
-                print("%-8s %-45s %s rc=%d suite=%s %.0fs %s" % (
+                print("%-5s %-45s %s rc=%d suite=%s %.0fs %s" % (
                     m["prop"], m["name"], "CAUGHT" if caught else "MISSED", rc, suite, wall,
-                    (detail[0][:110] if detail else "")), flush=True)
+                    (detail[0][:110] if detail else (lines[0][:110] if lines else ""))), flush=True)
+                return res
             finally:
                 shutil.rmtree(d, ignore_errors=True)
+        from concurrent.futures import ThreadPoolExecutor
+        with ThreadPoolExecutor(max_workers=a.jobs) as ex:
+            results = list(ex.map(one, todo))
     finally:
         if os.path.isdir(os.path.join(backup, "evidence")):
             shutil.rmtree(evdir, ignore_errors=True)
